@@ -30,6 +30,14 @@ CHECKS = [
       technique="deterministic simulation: seeded document mutation histories in which storage-backed generate/purge run under injected storage faults and seeded schedules, checked step by step against a set-of-entries reference model (state, outcome, invariants, JSON/state-metadata round trip, every resolution query)",
       text="Seeded histories of <=12 operations over 2-5 fragments x 2 DIDs from empty, built and deserialised start documents (incl. dangling own/foreign references, foreign-DID embedded methods, shared fragments); after every step: id-uniqueness invariants recomputed from the entries, refused operations leave the document unchanged, to_json/from_json (and pack/unpack for IotaDocument) round trip, resolve_method / resolve_service / methods for every id and fragment with and without every scope agree with the model. Only generate_method/purge_method can meet faults; the plain mutators run as fault-free model conformance.",
       note="Sampling, not bounded-exhaustive enumeration. Ambiguous fragment-only queries (same fragment under several DIDs) admit any candidate. Order inside collections is not compared."),
+ dict(id="C14", engine="world", level="exploration", design="§4.4, §5 C14",
+      technique="deterministic simulation: IOTA document lifecycle against a simulated ledger that stores the packed bytes and serves them intact, stale, torn, with trailing garbage or header bit flips; expected documents recomputed by a harness-side self-reference rewrite",
+      text="Seeded document lifecycles (placeholder DID rebased at first publication, mutations between publications, self/foreign methods in every scope, references, services, controllers, alsoKnownAs, custom properties, metadata); every version is unpacked for its own and for a different DID and compared with the harness model (exactly id, controllers, method ids/controllers, references and service ids rewritten); torn reads, header flips and enlarging length flips must be rejected, trailing garbage ignored, >65535-byte documents fail to pack and 65533..65535-byte ones pack.",
+      note="Byte strings offered to unpack are faults applied to really packed documents; arbitrary byte strings are not explored. Body flips and shrinking length flips are outside the statement and only counted."),
+ dict(id="C06", engine="world", level="exploration", design="§4.4, §5 C06",
+      technique="deterministic simulation: issuer revocation history (revoke/unrevoke batches, publications, simulated time) with verifiers resolving possibly stale ledger versions and validating credentials; BTreeSet<u32> model per service per version",
+      text="Seeded histories of revoke/unrevoke batches (sequential, clustered, random, multi-container indices, sizes up to 10^3 quick / 10^5 thorough) on 1-2 services of IOTA and did:sim documents; after every update the issuer's own document must decode to the model set and change exactly the requested indices; a verifier's resolved (possibly stale) version must decode to that version's model; credential validation must report Revoked exactly when the index is a member of the version used; legacy double-encoded endpoints must still decode.",
+      note="Legacy endpoints are produced by re-encoding the library's own current endpoint string the way pre-#1291 publishers did. Membership is compared on all touched indices, neighbours (+-1, +-65536), samples of members and random indices, and by cardinality."),
 ]
 
 def main():
